@@ -137,13 +137,22 @@ func cmdCheck(args []string) int {
 	// audited dead code: return paths that the assumptions legitimately refute (e.g. error handling
 	// after a write into an in-memory buffer that cannot fail)
 	deadPaths := map[string]string{}
+	deadSrc := map[string]string{}
 	var deadNoted []string
 	if data, err := os.ReadFile(filepath.Join(*verif, "dead_paths.json")); err == nil {
-		var dl []struct{ Path, Reason string }
+		var dl []struct{ Path, Reason, Src string }
 		if err := json.Unmarshal(data, &dl); err != nil {
 			engineFail("dead_paths", err.Error())
 		}
 		for _, d := range dl {
+			if d.Src != "" {
+				// keyed by function + source text of the return statement: survives renumbering
+				fn := d.Path
+				if i := strings.Index(fn, "/cover/"); i >= 0 {
+					fn = fn[:i]
+				}
+				deadSrc[fn+"|"+d.Src] = d.Reason
+			}
 			deadPaths[d.Path] = d.Reason
 		}
 	}
@@ -276,10 +285,24 @@ func cmdCheck(args []string) int {
 			continue
 		}
 		full := shortFn(o.Fn) + "/" + o.Name
+		if o.ExpectSat && os.Getenv("GOVC_DUMP_COVER") != "" {
+			fmt.Printf("COVER %s | %s\n", full, o.Src)
+		}
 		if o.ExpectSat && deadPaths[full] != "" {
 			deadNoted = append(deadNoted, full+": "+deadPaths[full])
 			discharged++
 			continue
+		}
+		if o.ExpectSat && o.Src != "" {
+			fnp := full
+			if i := strings.Index(fnp, "/cover/"); i >= 0 {
+				fnp = fnp[:i]
+			}
+			if r := deadSrc[fnp+"|"+o.Src]; r != "" {
+				deadNoted = append(deadNoted, full+" ("+o.Src+"): "+r)
+				discharged++
+				continue
+			}
 		}
 		if kf := isKnown(full); kf != nil {
 			fmt.Printf("KNOWN-FINDING: property=%s %s %s\n", *prop, full, kf.What)
